@@ -532,6 +532,10 @@ class _Metadata:
         object.__setattr__(self, '_fields', fields)
 
     def __getattr__(self, name):
+        if name == '_fields' or (name.startswith('__') and name.endswith('__')):
+            # Not metadata: copy and pickle probe instances that have not been
+            # initialised yet, which would otherwise recurse for ever.
+            raise AttributeError(name)
         return self._fields.get(name)
 
     def __setattr__(self, name, value):
